@@ -49,6 +49,7 @@ def worker(w, seeds):
         if rc != 0:
             rec.update(rc=-1, line="PATCH DOES NOT APPLY: " + out[-200:])
         else:
+            shutil.rmtree(base + "/verif/replays", ignore_errors=True)
             rc, out = sh("timeout 2000 ./check %s --tier %s" % (prop, TIER), base + "/verif", e)
             last = [l for l in out.splitlines() if l.startswith(("VIOLATION", "OK", "MACHINERY"))]
             rec.update(rc=rc, line=(last[0] if last else out[-300:])[:260])
